@@ -385,6 +385,9 @@ class FD:
                 return self.resolver(d)
             except KeyError:
                 pass
+        if d is not None and d in self.calls and d.split('.')[0] not in env:
+            # a dotted callable the harness models (io.StringIO), used as a value: `cls = io.StringIO if ... else Other`
+            return self._callable_value(d)
         if d is not None and d.count('.') == 1 and self.sym is not None and self._mods and self._mods[-1] is not None \
                 and d.split('.')[0] not in env:
             # `import operator as _operator`: canonical name of a stdlib module imported under an alias
@@ -1262,6 +1265,15 @@ class FD:
                 return getattr(recv, attr)(*args, **kwargs)
             except (TypeError, ValueError, LookupError) as ex:
                 raise Raised(type(ex).__name__, str(ex))
+        if isinstance(recv, (_RE_PATTERN, _RE_MATCH)) and attr in _PURE_RE_METHODS:
+            # compiled regular expressions and their matches: pure objects of the standard library
+            if any(isinstance(a, (Obj, Opaque)) or a is UNKNOWN for a in list(args) + list(kwargs.values())):
+                raise Inconclusive('fdeval: %s.%s on a non-concrete operand' % (type(recv).__name__, attr))
+            try:
+                out = getattr(recv, attr)(*args, **kwargs)
+                return list(out) if attr == 'finditer' else out
+            except (TypeError, ValueError, IndexError, KeyError) as ex:
+                raise Raised(type(ex).__name__, str(ex))
         if isinstance(recv, _STRING_FORMATTER) and attr in ('parse', 'format', 'vformat'):
             # string.Formatter: a pure helper object of the standard library
             try:
@@ -1707,6 +1719,10 @@ _PURE_STR_METHODS = frozenset((
     'casefold', 'expandtabs', 'removeprefix', 'removesuffix', 'swapcase', 'zfill', 'ljust', 'rjust', 'center',
     'encode', 'translate'))
 _STRING_FORMATTER = __import__('string').Formatter
+_RE_PATTERN = type(__import__('re').compile(''))
+_RE_MATCH = type(__import__('re').match('', ''))
+_PURE_RE_METHODS = frozenset(('match', 'fullmatch', 'search', 'sub', 'subn', 'split', 'findall', 'finditer', 'group',
+                              'groups', 'groupdict', 'start', 'end', 'span'))
 
 
 def _cached_by_cpython(v):
@@ -1755,6 +1771,10 @@ _PURE_DOTTED = {'textwrap.dedent': __import__('textwrap').dedent, 'textwrap.inde
                 'string.capwords': __import__('string').capwords, 'unicodedata.normalize': __import__('unicodedata').normalize,
                 # read-only queries of interpreter state: a representative value (nothing in pedal's logic may depend
                 # on which)
+                're.compile': __import__('re').compile, 're.escape': __import__('re').escape,
+                're.match': __import__('re').match, 're.search': __import__('re').search,
+                're.fullmatch': __import__('re').fullmatch, 're.sub': __import__('re').sub,
+                're.split': __import__('re').split, 're.findall': __import__('re').findall,
                 'string.Formatter': __import__('string').Formatter, 'types.ModuleType': __import__('types').ModuleType,
                 'types.SimpleNamespace': __import__('types').SimpleNamespace, 'str.maketrans': str.maketrans,
                 'sys.getrecursionlimit': lambda: 1000, 'os.getcwd': lambda: '/cwd', 'os.getpid': lambda: 4242,
